@@ -151,7 +151,11 @@ func (s *state) get(v ir.Value) ValueNilness {
 	}
 	num := s.n.number(v)
 	if num < len(s.m) {
-		return s.m[num]
+		// The identity element is never stored explicitly; such entries only exist
+		// because a value with a higher number was stored, and mean "not stored".
+		if vn := s.m[num]; vn != (lattice{}.Ident()) {
+			return vn
+		}
 	}
 
 	switch v.(type) {
